@@ -93,7 +93,7 @@ func RunFault(c Case) (*Violation, map[string]int, *FaultPlan) {
 func monitorSig(sig string) bool {
 	switch sig {
 	case "write-on-read-path", "write-below-durable-end", "truncate-outside-revert", "truncate-size", "durable-prefix-modified",
-		"copyto-source-file-changed", "copyto-source-written", "snapshot-revert-wrote":
+		"copyto-source-file-changed", "copyto-source-written", "snapshot-revert-wrote", "copyto-dst-truncated":
 		return true
 	}
 	return false
